@@ -29,7 +29,7 @@ impl<const N: usize> Rib for RibbonController<N> {
     }
 }
 
-pub const RATES: [u32; 7] = [100, 500, 1000, 2000, 10000, 48000, 192000];
+pub const RATES: [u32; 12] = [100, 500, 1000, 1500, 2000, 8000, 10000, 22050, 44100, 48000, 96000, 192000];
 pub const RESISTORS: [(f32, f32, f32); 3] = [(20e3, 820.0, 1e6), (10e3, 470.0, 100e3), (10e3, 1e3, 11e3)];
 
 macro_rules! mk {
@@ -43,7 +43,7 @@ macro_rules! mk {
 }
 
 pub fn make(fs: u32, res: (f32, f32, f32)) -> Option<(Box<dyn Rib>, usize)> {
-    mk!(fs, res.0, res.1, res.2, 100, 500, 1000, 2000, 10000, 48000, 192000)
+    mk!(fs, res.0, res.1, res.2, 100, 500, 1000, 1500, 2000, 8000, 10000, 22050, 44100, 48000, 96000, 192000)
 }
 
 fn boundary(res: (f32, f32, f32)) -> f32 {
@@ -178,7 +178,7 @@ impl<'a> Session<'a> {
 /// presses around the capture length, short taps back to back, glitches, long presses
 pub fn drive_press(s: &mut Session, rng: &mut Rng, thorough: bool) {
     for (fi, &fs) in RATES.iter().enumerate() {
-        let big = fs >= 48000;
+        let big = fs >= 22050;
         let reps = if thorough { if big { 3 } else { 10 } } else if big { 1 } else { 3 };
         for rep in 0..reps {
             let ri = (rep + fi) % 3;
@@ -329,7 +329,7 @@ pub fn pair_case(s: &mut Session, fs: u32, ri: usize, seed: u64, variant: u32) {
 pub fn drive_pair(s: &mut Session, rng: &mut Rng, thorough: bool) {
     s.out.line("{\"op\":\"new\",\"fs\":100,\"ri\":0,\"cap\":2,\"thr\":4096,\"bq\":16777216,\"ecq\":0}");
     for &fs in RATES.iter() {
-        let n = if thorough { if fs >= 48000 { 20 } else { 150 } } else if fs >= 48000 { 3 } else { 25 };
+        let n = if thorough { if fs >= 22050 { 20 } else { 150 } } else if fs >= 22050 { 3 } else { 25 };
         for i in 0..n {
             for variant in 0..3 {
                 let seed = rng.next_u64() >> 12;
